@@ -247,6 +247,47 @@ pub fn no_panic<T>(f: impl FnOnce() -> T) -> Result<T, String> {
 }
 
 // ---------------------------------------------------------------------------
+// Log sink: a tracing subscriber that enables every level and formats every field into a scratch buffer, so that
+// the code under test evaluates the arguments of its log lines exactly as it does in production with logging on
+// (a panic inside a log line's argument - e.g. slicing a hostile string - is a panic of the code under test).
+// ---------------------------------------------------------------------------
+struct LogSink;
+struct SinkVisitor(usize);
+impl tracing::field::Visit for SinkVisitor {
+    fn record_debug(&mut self, _f: &tracing::field::Field, v: &dyn std::fmt::Debug) {
+        use std::fmt::Write;
+        struct Count<'a>(&'a mut usize);
+        impl Write for Count<'_> {
+            fn write_str(&mut self, s: &str) -> std::fmt::Result {
+                *self.0 += s.len();
+                Ok(())
+            }
+        }
+        let _ = write!(Count(&mut self.0), "{v:?}");
+    }
+}
+impl tracing::Subscriber for LogSink {
+    fn enabled(&self, _m: &tracing::Metadata<'_>) -> bool {
+        true
+    }
+    fn new_span(&self, _s: &tracing::span::Attributes<'_>) -> tracing::span::Id {
+        tracing::span::Id::from_u64(1)
+    }
+    fn record(&self, _s: &tracing::span::Id, _v: &tracing::span::Record<'_>) {}
+    fn record_follows_from(&self, _s: &tracing::span::Id, _f: &tracing::span::Id) {}
+    fn event(&self, e: &tracing::Event<'_>) {
+        let mut v = SinkVisitor(0);
+        e.record(&mut v);
+    }
+    fn enter(&self, _s: &tracing::span::Id) {}
+    fn exit(&self, _s: &tracing::span::Id) {}
+}
+/// Switch logging "on" for the whole process (idempotent).
+pub fn install_log_sink() {
+    let _ = tracing::subscriber::set_global_default(LogSink);
+}
+
+// ---------------------------------------------------------------------------
 // Verdict of one case
 // ---------------------------------------------------------------------------
 #[derive(Debug, Clone)]
